@@ -15,9 +15,31 @@ Env pins (one process per case):  VH_FAM  family of operands (modes|transits|per
 import itertools
 import os
 import warnings
-from typing import List
 
 warnings.simplefilter('ignore')
+
+try:    # CrossHair's optional "short-circuiting" replaces calls to contract-carrying callees (its own hash() wrapper) by
+    # fresh symbols on a random 30% of the paths; a symbolic hash of a concrete dataclass is then rejected by native
+    # dicts/sets ("proxy intolerance" -> path UNKNOWN). Always executing the callee is the sound, exact alternative.
+    import crosshair.core as _cc
+    _cc.consider_shortcircuit = lambda *a, **k: None
+    from crosshair.tracers import NoTracing as _NoTracing
+except ImportError:
+    import contextlib
+    _NoTracing = contextlib.nullcontext
+
+
+def _pick(x, lo, hi):
+    """Fix a table index lo <= x < hi on this path by bisection (log2(hi-lo) solver-decided branches); the result is
+    a native int, so everything computed from it afterwards is concrete."""
+    while hi - lo > 1:
+        mid = (lo + hi) // 2
+        if x < mid:
+            hi = mid
+        else:
+            lo = mid
+    return lo
+
 
 from pharmpy.tools.mfl.parse import ModelFeatures  # noqa: E402
 from pharmpy.tools.mfl.statement.feature.absorption import Absorption  # noqa: E402
@@ -34,10 +56,11 @@ from pharmpy.tools.mfl.statement.feature.transits import Transits  # noqa: E402
 
 FAM = os.environ.get('VH_FAM', 'modes')
 CAT = os.environ.get('VH_CAT', 'absorption')
-OP = os.environ.get('VH_OP', 'add')
+OP = os.environ.get('VH_OP', 'all')
 REGION = os.environ.get('VH_REGION', 'main')
 MAXC = int(os.environ.get('VH_MAXC', '2'))      # largest transit / peripheral count
 NST = int(os.environ.get('VH_NST', '2'))        # statements per transit / peripheral operand (1..NST)
+SWAP = os.environ.get('VH_SWAP', '0') == '1'   # the multi-statement operand is the right-hand one
 
 # ---- documented option lists (docs/mfl.rst, grammar.py); independent of the *_WILDCARD tuples of pharmpy ------------
 MODES = dict(absorption=('FO', 'ZO', 'SEQ-ZO-FO', 'INST'), elimination=('FO', 'ZO', 'MM', 'MIX-FO-MM'),
@@ -79,6 +102,8 @@ IEP_T = [_names(s) for s in _nes(IE_PROD)] + [Wildcard()]
 COVP_T = _nes(('CL', 'V'))
 COVC_T = _nes(('WGT', 'AGE'))
 COVF_T = _nes(('EXP', 'LIN')) + [Wildcard()]
+COUNT_T = _nes(tuple(range(MAXC + 1)))     # non-empty count lists over 0..MAXC, ascending
+NK = len(COUNT_T)
 NM = len(MODE_T[CAT]) if CAT in MODE_T else 0
 ND = len(DEPOT_T)
 NP = len(PMODE_T)
@@ -207,238 +232,262 @@ def _check_lnt(a, b, A, B):
     return True
 
 
-def _check(a, b, eq_cats=None, tool=None):
+OPS = ('add', 'sub', 'eq', 'contain', 'lnt')
+
+
+def _ops(region_of, skip=()):
+    """Operations whose region for this operand pair is the one this process is pinned to."""
+    ops = OPS if OP == 'all' else (OP,)
+    return [op for op in ops if op not in skip and region_of(op) == REGION]
+
+
+def _check(ops, a, b, eq_cats=None, tool=None):
+    """Run every selected operation; an AssertionError names the first operation that disagrees."""
     A, B = expand(a), expand(b)
-    if OP == 'add':
-        return _check_add(a, b, A, B)
-    if OP == 'sub':
-        return _check_sub(a, b, A, B)
-    if OP == 'eq':
-        return _check_eq(a, b, A, B, eq_cats if eq_cats is not None else list(A))
-    if OP == 'contain':
-        return _check_contain(a, b, A, B, tool)
-    if OP == 'lnt':
-        return _check_lnt(a, b, A, B)
-    raise RuntimeError(OP)
+    for op in ops:
+        if op == 'add':
+            ok = _check_add(a, b, A, B)
+        elif op == 'sub':
+            ok = _check_sub(a, b, A, B)
+        elif op == 'eq':
+            ok = _check_eq(a, b, A, B, eq_cats if eq_cats is not None else list(A))
+        elif op == 'contain':
+            ok = _check_contain(a, b, A, B, tool)
+        else:
+            ok = _check_lnt(a, b, A, B)
+        if not ok:
+            raise AssertionError(f'{op} disagrees with the set reference')
+    return True
+
+
+# Every family below has the same shape: the parameters are table indexes; `_pick` fixes them (one path per value, the
+# bounds in `pre:` are what z3 enumerates), the operands are then concrete objects and the real pharmpy operation plus
+# the reference comparison run with opcode tracing suspended (same result as traced execution on concrete data).
+def _run(body, *ranged):
+    codes = [_pick(v, lo, hi) for v, lo, hi in ranged]
+    with _NoTracing():
+        return body(*codes)
 
 
 # ---- family: one mode-list category -----------------------------------------------------------------------------------
 _PKM = ('absorption', 'elimination', 'lagtime')
+_SUB = {c: _nes(MODES[c]) for c in MODES}
 
 
-def _region_modes(x, y):
+def _region_modes(op, x, y):
     """Name of the region the operand pair lies in: 'main' or the slug of the finding that owns it."""
     wild = x == NM - 1 or y == NM - 1
     A = set(MODES[CAT]) if x == NM - 1 else set(_SUB[CAT][x])
     B = set(MODES[CAT]) if y == NM - 1 else set(_SUB[CAT][y])
-    if CAT in _PKM and OP in ('sub', 'eq') and wild:
+    if CAT in _PKM and op in ('sub', 'eq') and wild:
         return 'wildcard_sub_eq'      # Absorption/Elimination/LagTime.__eq__ iterate `modes` of a wildcard
     if CAT == 'metabolite':
-        if OP == 'eq':
+        if op == 'eq':
             return 'main' if A == B else 'eq_ignores_metabolite'      # __eq__ never compares metabolite
-        if OP == 'sub' and wild:
+        if op == 'sub' and wild:
             return 'wildcard_sub_eq'
-    if CAT in ('direct_effect', 'effect_comp', 'metabolite') and OP == 'sub':
+    if CAT in ('direct_effect', 'effect_comp', 'metabolite') and op == 'sub':
         if A < B and y != NM - 1:
             return 'pd_sub_empty'     # builds DirectEffect/EffectComp/Metabolite(modes=None)
     return 'main'
 
 
-_SUB = {c: _nes(MODES[c]) for c in MODES}
-
-
-def _mk_modes(i):
-    return ModelFeatures.create(**{CAT: MODE_T[CAT][i]})
+def _body_modes(x, y):
+    ops = _ops(lambda op: _region_modes(op, x, y), skip=() if CAT in _PKM else ('contain',))
+    if not ops:
+        return None
+    a = ModelFeatures.create(**{CAT: MODE_T[CAT][x]})
+    b = ModelFeatures.create(**{CAT: MODE_T[CAT][y]})
+    return _check(ops, a, b)
 
 
 def alg_modes(x: int, y: int) -> bool:
     """
     pre: 0 <= x < NM and 0 <= y < NM
-    pre: _region_modes(x, y) == REGION
-    post: _ == True
+    post: _ in (True, None)
     """
-    return _check(_mk_modes(x), _mk_modes(y))
+    return _run(_body_modes, (x, 0, NM), (y, 0, NM))
 
 
 def alg_modes__twin(x: int, y: int) -> bool:
     """
     pre: 0 <= x < NM and 0 <= y < NM
-    pre: _region_modes(x, y) == REGION
     post: _ == True
     """
-    return not alg_modes(x, y)
+    return _run(_body_modes, (x, 0, NM), (y, 0, NM)) is not True
 
 
-# ---- family: transits (1..NST statements per operand, symbolic counts, depot option incl. wildcard) --------------------
-def _counts_ok(cs):
-    return 1 <= len(cs) <= 2 and all(0 <= c <= MAXC for c in cs) and (len(cs) < 2 or cs[0] != cs[1])
+# ---- families: transits / peripherals (1..2 statements on one side, 1 on the other; counts from COUNT_T) ---------------
+def _mk_counted(cls, key, opt_t, k1, o1, k2, o2):
+    st = (cls(COUNT_T[k1], opt_t[o1]),)
+    if k2 >= 0:
+        st += (cls(COUNT_T[k2], opt_t[o2]),)
+    return ModelFeatures.create(**{key: st})
 
 
-def _mk_transits(c1, d1, c2, d2):
-    st = (Transits(tuple(c1), DEPOT_T[d1]),)
-    if c2:
-        st += (Transits(tuple(c2), DEPOT_T[d2]),)
-    return ModelFeatures.create(transits=st)
-
-
-def _region_transits(c1, d1, c2, d2, e1, f1):
-    if OP != 'contain':
+def _region_transits(op, a, b):
+    if op != 'contain':
         return 'main'
-    a, b = _mk_transits(c1, d1, c2, d2), _mk_transits(e1, f1, [], 0)
-    if os.environ.get('VH_SWAP') == '1':
-        a, b = b, a
     A, B = expand(a)['transits'], expand(b)['transits']
     if {c for c, _ in B} <= {c for c, _ in A} and {d for _, d in B} <= {d for _, d in A} and not B <= A:
         return 'contain_transits_cross'   # counts and depots are compared separately (FIXME in _subset_transits)
     return 'main'
 
 
-def alg_transits(c1: List[int], d1: int, c2: List[int], d2: int, e1: List[int], f1: int) -> bool:
+def _body_transits(k1, d1, k2, d2, l1, f1):
+    a = _mk_counted(Transits, 'transits', DEPOT_T, k1, d1, k2, d2)
+    b = _mk_counted(Transits, 'transits', DEPOT_T, l1, f1, -1, 0)
+    if SWAP:
+        a, b = b, a
+    ops = _ops(lambda op: _region_transits(op, a, b))
+    if not ops:
+        return None
+    return _check(ops, a, b)
+
+
+def alg_transits(k1: int, d1: int, k2: int, d2: int, l1: int, f1: int) -> bool:
     """
-    pre: _counts_ok(c1) and _counts_ok(e1) and (len(c2) == 0 or (NST >= 2 and _counts_ok(c2)))
-    pre: 0 <= d1 < ND and 0 <= d2 < ND and 0 <= f1 < ND and (len(c2) > 0 or d2 == 0)
-    pre: _region_transits(c1, d1, c2, d2, e1, f1) == REGION
+    pre: 0 <= k1 < NK and 0 <= l1 < NK and -1 <= k2 < NK and (NST >= 2 or k2 == -1)
+    pre: 0 <= d1 < ND and 0 <= d2 < ND and 0 <= f1 < ND and (k2 >= 0 or d2 == 0)
+    post: _ in (True, None)
+    """
+    return _run(_body_transits, (k1, 0, NK), (d1, 0, ND), (k2, -1, NK), (d2, 0, ND), (l1, 0, NK), (f1, 0, ND))
+
+
+def alg_transits__twin(k1: int, d1: int, k2: int, d2: int, l1: int, f1: int) -> bool:
+    """
+    pre: 0 <= k1 < NK and 0 <= l1 < NK and -1 <= k2 < NK and (NST >= 2 or k2 == -1)
+    pre: 0 <= d1 < ND and 0 <= d2 < ND and 0 <= f1 < ND and (k2 >= 0 or d2 == 0)
     post: _ == True
     """
-    a = _mk_transits(c1, d1, c2, d2)
-    b = _mk_transits(e1, f1, [], 0)
-    a2, b2 = (b, a) if os.environ.get('VH_SWAP') == '1' else (a, b)
-    return _check(a2, b2)
+    return _run(_body_transits, (k1, 0, NK), (d1, 0, ND), (k2, -1, NK), (d2, 0, ND), (l1, 0, NK), (f1, 0, ND)) is not True
 
 
-def alg_transits__twin(c1: List[int], d1: int, c2: List[int], d2: int, e1: List[int], f1: int) -> bool:
-    """
-    pre: _counts_ok(c1) and _counts_ok(e1) and (len(c2) == 0 or (NST >= 2 and _counts_ok(c2)))
-    pre: 0 <= d1 < ND and 0 <= d2 < ND and 0 <= f1 < ND and (len(c2) > 0 or d2 == 0)
-    pre: _region_transits(c1, d1, c2, d2, e1, f1) == REGION
-    post: _ == True
-    """
-    a = _mk_transits(c1, d1, c2, d2)
-    b = _mk_transits(e1, f1, [], 0)
-    a2, b2 = (b, a) if os.environ.get('VH_SWAP') == '1' else (a, b)
-    return not _check(a2, b2)
-
-
-# ---- family: peripherals (DRUG / MET statements) ----------------------------------------------------------------------
-def _mk_periph(c1, m1, c2, m2):
-    st = (Peripherals(tuple(c1), PMODE_T[m1]),)
-    if c2:
-        st += (Peripherals(tuple(c2), PMODE_T[m2]),)
-    return ModelFeatures.create(peripherals=st)
-
-
-def _region_periph(c1, m1, c2, m2, e1, n1):
-    wild = m1 == NP - 1 or n1 == NP - 1 or (len(c2) > 0 and m2 == NP - 1)
-    if wild:
+def _region_periph(op, m1, k2, m2, n1, a, b):
+    if m1 == NP - 1 or n1 == NP - 1 or (k2 >= 0 and m2 == NP - 1):
         return 'periph_wildcard'     # PERIPHERALS(n,*) makes every operation raise TypeError
-    if OP == 'eq' and len(c2) > 0:
-        a, b = _mk_periph(c1, m1, c2, m2), _mk_periph(e1, n1, [], 0)
+    if op == 'eq' and k2 >= 0:
         A, B = expand(a), expand(b)
         if all(A[k] == B[k] for k in ('peripherals:DRUG', 'peripherals:MET')):
             return 'eq_periph_shape'  # tuple-of-statements comparison depends on how the statements are split
-    if OP == 'contain' and (m1 != 0 or n1 != 0 or (len(c2) > 0 and m2 != 0)):
+    if op == 'contain' and (m1 != 0 or n1 != 0 or (k2 >= 0 and m2 != 0)):
         return 'outside'             # contain_subset looks at DRUG peripherals only (tool modelsearch): not claimed
     return 'main'
 
 
-def alg_periph(c1: List[int], m1: int, c2: List[int], m2: int, e1: List[int], n1: int) -> bool:
+def _body_periph(k1, m1, k2, m2, l1, n1):
+    a = _mk_counted(Peripherals, 'peripherals', PMODE_T, k1, m1, k2, m2)
+    b = _mk_counted(Peripherals, 'peripherals', PMODE_T, l1, n1, -1, 0)
+    if SWAP:
+        a, b = b, a
+    ops = _ops(lambda op: _region_periph(op, m1, k2, m2, n1, a, b))
+    if not ops:
+        return None
+    return _check(ops, a, b, tool='modelsearch')
+
+
+def alg_periph(k1: int, m1: int, k2: int, m2: int, l1: int, n1: int) -> bool:
     """
-    pre: _counts_ok(c1) and _counts_ok(e1) and (len(c2) == 0 or (NST >= 2 and _counts_ok(c2)))
-    pre: 0 <= m1 < NP and 0 <= m2 < NP and 0 <= n1 < NP and (len(c2) > 0 or m2 == 0)
-    pre: _region_periph(c1, m1, c2, m2, e1, n1) == REGION
+    pre: 0 <= k1 < NK and 0 <= l1 < NK and -1 <= k2 < NK and (NST >= 2 or k2 == -1)
+    pre: 0 <= m1 < NP and 0 <= m2 < NP and 0 <= n1 < NP and (k2 >= 0 or m2 == 0)
+    post: _ in (True, None)
+    """
+    return _run(_body_periph, (k1, 0, NK), (m1, 0, NP), (k2, -1, NK), (m2, 0, NP), (l1, 0, NK), (n1, 0, NP))
+
+
+def alg_periph__twin(k1: int, m1: int, k2: int, m2: int, l1: int, n1: int) -> bool:
+    """
+    pre: 0 <= k1 < NK and 0 <= l1 < NK and -1 <= k2 < NK and (NST >= 2 or k2 == -1)
+    pre: 0 <= m1 < NP and 0 <= m2 < NP and 0 <= n1 < NP and (k2 >= 0 or m2 == 0)
     post: _ == True
     """
-    a = _mk_periph(c1, m1, c2, m2)
-    b = _mk_periph(e1, n1, [], 0)
-    a2, b2 = (b, a) if os.environ.get('VH_SWAP') == '1' else (a, b)
-    return _check(a2, b2, tool='modelsearch')
+    return _run(_body_periph, (k1, 0, NK), (m1, 0, NP), (k2, -1, NK), (m2, 0, NP), (l1, 0, NK), (n1, 0, NP)) is not True
 
 
-def alg_periph__twin(c1: List[int], m1: int, c2: List[int], m2: int, e1: List[int], n1: int) -> bool:
-    """
-    pre: _counts_ok(c1) and _counts_ok(e1) and (len(c2) == 0 or (NST >= 2 and _counts_ok(c2)))
-    pre: 0 <= m1 < NP and 0 <= m2 < NP and 0 <= n1 < NP and (len(c2) > 0 or m2 == 0)
-    pre: _region_periph(c1, m1, c2, m2, e1, n1) == REGION
-    post: _ == True
-    """
-    return not alg_periph(c1, m1, c2, m2, e1, n1)
+# ---- family: covariates (explicit effects; optional '?' and forced; wildcard effect list; '*' and '+') -----------------
+# statement code s in [0, NCOV): parameter subset x covariate subset x effect list (incl. *) x operator x optional
+NCOV = len(COVP_T) * len(COVC_T) * len(COVF_T) * 2 * 2
 
 
-# ---- family: covariates (explicit effects; optional '?' and forced; wildcard effect list) ------------------------------
-def _mk_cov(p, c, f, plus, opt):
+def _mk_cov(s):
+    s, opt = divmod(s, 2)
+    s, plus = divmod(s, 2)
+    s, f = divmod(s, len(COVF_T))
+    p, c = divmod(s, len(COVC_T))
     return Covariate(COVP_T[p], COVC_T[c], COVF_T[f], '+' if plus else '*', Option(bool(opt)))
 
 
-def alg_cov(p1: int, c1: int, f1: int, o1: bool, two: bool, p2: int, c2: int, f2: int, plus2: bool, o2: bool,
-            q1: int, d1: int, g1: int, r1: bool) -> bool:
-    """
-    pre: 0 <= p1 < 3 and 0 <= c1 < 3 and 0 <= f1 < 4 and 0 <= p2 < 3 and 0 <= c2 < 3 and 0 <= f2 < 4
-    pre: 0 <= q1 < 3 and 0 <= d1 < 3 and 0 <= g1 < 4
-    pre: two or (p2 == 0 and c2 == 0 and f2 == 0 and not plus2 and not o2)
-    pre: _region_cov(p1, c1, f1, o1, two, p2, c2, f2, plus2, o2, q1, d1, g1, r1) == REGION
-    post: _ == True
-    """
-    st = (_mk_cov(p1, c1, f1, False, o1),)
-    if two:
-        st += (_mk_cov(p2, c2, f2, plus2, o2),)
-    a = ModelFeatures.create(covariate=st)
-    b = ModelFeatures.create(covariate=(_mk_cov(q1, d1, g1, False, r1),))
-    a2, b2 = (b, a) if os.environ.get('VH_SWAP') == '1' else (a, b)
-    return _check(a2, b2, eq_cats=['covariate'])
-
-
-def _region_cov(p1, c1, f1, o1, two, p2, c2, f2, plus2, o2, q1, d1, g1, r1):
-    if OP != 'eq':
+def _region_cov(op, a, b):
+    if op != 'eq':
         return 'main'
-    st = (_mk_cov(p1, c1, f1, False, o1),) + ((_mk_cov(p2, c2, f2, plus2, o2),) if two else ())
-    a = ModelFeatures.create(covariate=st)
-    b = ModelFeatures.create(covariate=(_mk_cov(q1, d1, g1, False, r1),))
-    if os.environ.get('VH_SWAP') == '1':
-        a, b = b, a
     A, B = expand(a)['covariate'], expand(b)['covariate']
     if all(k in B and B[k] == v for k, v in A.items()) and A != B:
         return 'eq_cov_one_directional'   # ModelFeatures._eq_covariate only checks lhs effects against rhs
     return 'main'
 
 
-def alg_cov__twin(p1: int, c1: int, f1: int, o1: bool, two: bool, p2: int, c2: int, f2: int, plus2: bool, o2: bool,
-                  q1: int, d1: int, g1: int, r1: bool) -> bool:
+def _body_cov(s1, s2, t1):
+    st = (_mk_cov(s1),) + ((_mk_cov(s2),) if s2 >= 0 else ())
+    a = ModelFeatures.create(covariate=st)
+    b = ModelFeatures.create(covariate=(_mk_cov(t1),))
+    if SWAP:
+        a, b = b, a
+    ops = _ops(lambda op: _region_cov(op, a, b), skip=('contain', 'lnt'))
+    if not ops:
+        return None
+    return _check(ops, a, b, eq_cats=['covariate'])
+
+
+COV_LO = int(os.environ.get('VH_S1LO', '0'))
+COV_HI = int(os.environ.get('VH_S1HI', str(NCOV)))
+
+
+def alg_cov(s1: int, s2: int, t1: int) -> bool:
     """
-    pre: 0 <= p1 < 3 and 0 <= c1 < 3 and 0 <= f1 < 4 and 0 <= p2 < 3 and 0 <= c2 < 3 and 0 <= f2 < 4
-    pre: 0 <= q1 < 3 and 0 <= d1 < 3 and 0 <= g1 < 4
-    pre: two or (p2 == 0 and c2 == 0 and f2 == 0 and not plus2 and not o2)
-    pre: _region_cov(p1, c1, f1, o1, two, p2, c2, f2, plus2, o2, q1, d1, g1, r1) == REGION
+    pre: COV_LO <= s1 < COV_HI and -1 <= s2 < NCOV and 0 <= t1 < NCOV and (NST >= 2 or s2 == -1)
+    post: _ in (True, None)
+    """
+    return _run(_body_cov, (s1, COV_LO, COV_HI), (s2, -1, NCOV), (t1, 0, NCOV))
+
+
+def alg_cov__twin(s1: int, s2: int, t1: int) -> bool:
+    """
+    pre: COV_LO <= s1 < COV_HI and -1 <= s2 < NCOV and 0 <= t1 < NCOV and (NST >= 2 or s2 == -1)
     post: _ == True
     """
-    return not alg_cov(p1, c1, f1, o1, two, p2, c2, f2, plus2, o2, q1, d1, g1, r1)
+    return _run(_body_cov, (s1, COV_LO, COV_HI), (s2, -1, NCOV), (t1, 0, NCOV)) is not True
 
 
-# ---- family: 2-category product (absorption x peripherals/DRUG, plus elimination on one side) --------------------------
+# ---- family: 2-category product (absorption x peripherals/DRUG, elimination on one side only) --------------------------
 NA = len(MODE_T['absorption']) - 1      # no wildcard here (wildcards: family modes)
 NE = len(MODE_T['elimination']) - 1
 
 
-def _mk_pair(x, cs, e):
-    kw = dict(absorption=MODE_T['absorption'][x], peripherals=(Peripherals(tuple(cs)),))
+def _mk_pair(x, k, e):
+    kw = dict(absorption=MODE_T['absorption'][x], peripherals=(Peripherals(COUNT_T[k]),))
     if e >= 0:
         kw['elimination'] = MODE_T['elimination'][e]
     return ModelFeatures.create(**kw)
 
 
-def alg_pair(x: int, cx: List[int], ex: int, y: int, cy: List[int]) -> bool:
-    """
-    pre: 0 <= x < NA and 0 <= y < NA and -1 <= ex < NE and _counts_ok(cx) and _counts_ok(cy)
-    post: _ == True
-    """
-    return _check(_mk_pair(x, cx, ex), _mk_pair(y, cy, -1), tool='modelsearch')
+def _body_pair(x, kx, ex, y, ky):
+    return _check(_ops(lambda op: 'main'), _mk_pair(x, kx, ex), _mk_pair(y, ky, -1), tool='modelsearch')
 
 
-def alg_pair__twin(x: int, cx: List[int], ex: int, y: int, cy: List[int]) -> bool:
+def alg_pair(x: int, kx: int, ex: int, y: int, ky: int) -> bool:
     """
-    pre: 0 <= x < NA and 0 <= y < NA and -1 <= ex < NE and _counts_ok(cx) and _counts_ok(cy)
+    pre: 0 <= x < NA and 0 <= y < NA and -1 <= ex < NE and 0 <= kx < NK and 0 <= ky < NK
+    post: _ in (True, None)
+    """
+    return _run(_body_pair, (x, 0, NA), (kx, 0, NK), (ex, -1, NE), (y, 0, NA), (ky, 0, NK))
+
+
+def alg_pair__twin(x: int, kx: int, ex: int, y: int, ky: int) -> bool:
+    """
+    pre: 0 <= x < NA and 0 <= y < NA and -1 <= ex < NE and 0 <= kx < NK and 0 <= ky < NK
     post: _ == True
     """
-    return not alg_pair(x, cx, ex, y, cy)
+    return _run(_body_pair, (x, 0, NA), (kx, 0, NK), (ex, -1, NE), (y, 0, NA), (ky, 0, NK)) is not True
 
 
 # ---- family: indirect effect (mode list x production) ------------------------------------------------------------------
@@ -446,26 +495,30 @@ NIM = len(IEM_T)
 NIP = len(IEP_T)
 
 
-def _mk_ie(m1, p1, two, m2, p2):
+def _mk_ie(m1, p1, m2, p2):
     st = (IndirectEffect(IEM_T[m1], IEP_T[p1]),)
-    if two:
+    if m2 >= 0:
         st += (IndirectEffect(IEM_T[m2], IEP_T[p2]),)
     return ModelFeatures.create(indirect_effect=st)
 
 
-def alg_indirect(m1: int, p1: int, two: bool, m2: int, p2: int, n1: int, q1: int) -> bool:
-    """
-    pre: 0 <= m1 < NIM and 0 <= m2 < NIM and 0 <= n1 < NIM and 0 <= p1 < NIP and 0 <= p2 < NIP and 0 <= q1 < NIP
-    pre: two or (m2 == 0 and p2 == 0)
-    post: _ == True
-    """
-    return _check(_mk_ie(m1, p1, two, m2, p2), _mk_ie(n1, q1, False, 0, 0))
+def _body_indirect(m1, p1, m2, p2, n1, q1):
+    return _check(_ops(lambda op: 'main', skip=('contain',)), _mk_ie(m1, p1, m2, p2), _mk_ie(n1, q1, -1, 0))
 
 
-def alg_indirect__twin(m1: int, p1: int, two: bool, m2: int, p2: int, n1: int, q1: int) -> bool:
+def alg_indirect(m1: int, p1: int, m2: int, p2: int, n1: int, q1: int) -> bool:
     """
-    pre: 0 <= m1 < NIM and 0 <= m2 < NIM and 0 <= n1 < NIM and 0 <= p1 < NIP and 0 <= p2 < NIP and 0 <= q1 < NIP
-    pre: two or (m2 == 0 and p2 == 0)
+    pre: 0 <= m1 < NIM and -1 <= m2 < NIM and 0 <= n1 < NIM and 0 <= p1 < NIP and 0 <= p2 < NIP and 0 <= q1 < NIP
+    pre: m2 >= 0 or p2 == 0
+    post: _ in (True, None)
+    """
+    return _run(_body_indirect, (m1, 0, NIM), (p1, 0, NIP), (m2, -1, NIM), (p2, 0, NIP), (n1, 0, NIM), (q1, 0, NIP))
+
+
+def alg_indirect__twin(m1: int, p1: int, m2: int, p2: int, n1: int, q1: int) -> bool:
+    """
+    pre: 0 <= m1 < NIM and -1 <= m2 < NIM and 0 <= n1 < NIM and 0 <= p1 < NIP and 0 <= p2 < NIP and 0 <= q1 < NIP
+    pre: m2 >= 0 or p2 == 0
     post: _ == True
     """
-    return not alg_indirect(m1, p1, two, m2, p2, n1, q1)
+    return _run(_body_indirect, (m1, 0, NIM), (p1, 0, NIP), (m2, -1, NIM), (p2, 0, NIP), (n1, 0, NIM), (q1, 0, NIP)) is not True
